@@ -146,6 +146,7 @@ type shardResult struct {
 	exitErrs  int
 	inconcl   []string
 	restarts  int
+	crashes   int
 	raceBuild bool
 }
 
@@ -301,9 +302,13 @@ func runShard(id, bin string, cfg propCfg, race bool, tier string, seed uint64, 
 		if ee, isEE := werr.(*exec.ExitError); isEE {
 			code = ee.ExitCode()
 		}
+		isExitErr := false
 		switch {
+		case code == 77 && strings.Contains(stderr, "CPU-BUDGET exceeded"):
+			res.extra = append(res.extra, mon.Violation{Sub: sub, Idx: idx, Sig: "non-termination:cpu-budget", Detail: "the case did not finish within its CPU-time budget: " + tail(stderr, 400)})
 		case code == 1 && strings.Contains(tail(stderr, 600), "[Error] in ") && !strings.Contains(stderr, "goroutine ") && cfg.exitOK:
 			res.exitErrs++
+			isExitErr = true
 		case code == 66 || strings.Contains(stderr, "WARNING: DATA RACE"):
 			res.extra = append(res.extra, mon.Violation{Sub: sub, Idx: idx, Sig: raceSig(stderr), Detail: "race detector report:\n" + head(stderr, 5000)})
 		case code == 1 && strings.Contains(tail(stderr, 600), "[Error] in ") && !strings.Contains(stderr, "goroutine "):
@@ -312,7 +317,10 @@ func runShard(id, bin string, cfg propCfg, race bool, tier string, seed uint64, 
 			res.extra = append(res.extra, mon.Violation{Sub: sub, Idx: idx, Sig: "died:" + dieSig(stderr), Detail: fmt.Sprintf("child died (%v):\n%s", werr, head(stderr, 5000))})
 		}
 		res.restarts++
-		if res.restarts > 40 {
+		if !isExitErr {
+			res.crashes++
+		}
+		if res.crashes > 40 {
 			res.inconcl = append(res.inconcl, fmt.Sprintf("shard %d: more than 40 child deaths, remaining cases not run", shard))
 			return res
 		}
